@@ -5,7 +5,7 @@
 (* Vocabulary) and the environment list it produces; one action = one more *)
 (* env line, tokenised and expanded by the specification's own Parse with  *)
 (* the environment that holds before it.  Values are the statement's       *)
-(* troublemakers (empty, blank inside, quote, "$W", "#", TAB inside);      *)
+(* troublemakers (empty, blank inside, quote, "$W", "#", TAB inside, "=" inside);      *)
 (* unquoted forms copy another variable, extend the variable's own old     *)
 (* value, or assign two variables in one line.                             *)
 (*                                                                         *)
@@ -26,7 +26,7 @@ vars == <<hist, env>>
 
 NameV == <<86>>
 NameW == <<86, 87>>      \* "VW": V is a proper prefix of the second name
-Values == { <<>>, <<120>>, <<112, 32, 113>>, <<39>>, <<36, 86, 87>>, <<35>>, <<97, 9, 98>> }
+Values == { <<>>, <<120>>, <<112, 32, 113>>, <<39>>, <<36, 86, 87>>, <<35>>, <<97, 9, 98>>, <<97, 61, 98, 61>> }   \* the last one: "a=b=" (only the first = separates name and value)
 Other(n) == IF n = NameV THEN NameW ELSE NameV
 
 Prefix(n) == EnvWord \o <<SP>> \o n \o <<EQ>>
